@@ -201,7 +201,10 @@ IteratorDictString *StringDictionaryXBW::extractPrefix(uchar *str,
   xbw->subPathSearch(qry, strLen + 1, &left, &right);
   delete[] qry;
 
-  return new IteratorDictStringXBW(str, strLen, left, right, xbw, maxlength);
+  if (left <= right)
+    return new IteratorDictStringXBW(str, strLen, left, right, xbw, maxlength);
+  else
+    return NULL;
 }
 
 IteratorDictString *StringDictionaryXBW::extractSubstr(uchar *str,
